@@ -23,7 +23,8 @@ UN = {'abs': 'FAbs', 'signum': 'FSignum', 'floor': 'FFloor', 'ceil': 'FCeil', 't
 BIN = {'Add': 'FAdd', 'Sub': 'FSub', 'Mul': 'FMul', 'Div': 'FDiv', 'Rem': 'FRem'}
 BINM = {'copysign': 'FCopysign', 'div_euclid': 'FDivEuclid', 'rem_euclid': 'FRemEuclid'}
 TRICK = {'floor': '(floor_lane O %(x)s)', 'ceil': '(ceil_lane O %(x)s)', 'trunc': '(trunc_lane O %(x)s)', 'round': '(round_lane O %(x)s)',
-         'fract': '(f32_2 O FSub %(x)s (trunc_lane O %(x)s))', 'fract_gl': '(f32_2 O FSub %(x)s (floor_lane O %(x)s))'}     # multi-instruction SSE2 operations (src/sse2.rs m128_*)
+         'fract': '(f32_2 O FSub %(x)s (trunc_lane O %(x)s))', 'fract_gl': '(f32_2 O FSub %(x)s (floor_lane O %(x)s))',
+         'abs': '(abs_lane O %(x)s)', 'neg': '(neg_lane O %(x)s)', 'copysign': '(copysign_lane O %(x)s %(y)s)'}     # multi-instruction SSE2 operations (src/sse2.rs m128_*)
 SSE_DIRECT = {'Add', 'Sub', 'Mul', 'Div', 'min', 'max'}     # single lane-wise SSE2 instructions (min/max = the documented compare-select)
 
 def simd_backed(structs, n):
@@ -77,7 +78,7 @@ def lanewise(cfg, structs, f, n, k, d, opname, prim, unary=False, scalar_left=Fa
     if direct:
         def lane(i):
             x = [a[i] for a in A]
-            if sse_trick: return TRICK[opname] % {'x': x[0]}
+            if sse_trick: return TRICK[opname] % {'x': x[0], 'y': x[1] if len(x) > 1 else ''}
             if prim == 'RECIP': return op2(k, 'FDiv', '(%s_of_bits O %d)' % (k, 1065353216 if k == 'f32' else 4607182418800017408), x[0])
             if prim and (unary): return op1(k, prim, x[0])
             if opname == 'powf': return op2(k, 'FPowf', x[0], x[1])
@@ -134,8 +135,12 @@ def predicate(cfg, structs, f, n, k, d):
     for i, t in enumerate(allp): trees.append(sym(structs, t, 'abcd'[i], vs))
     A = [l[2] for l in tree_leaves(trees[0])]
     args = '[%s]' % '; '.join(tree_coq(t) for t in trees); run = 'run O tbl 200 %d%%positive %s' % (f['fid'], args)
-    simd = simd_backed(structs, n)
-    if name == 'is_nan': rhs = 'Ok (VB (%s))' % ' || '.join(prd(k, 'FIsNan', a) for a in A)
+    simd = simd_backed(structs, n); sse = simd and not cfg.startswith('coresimd')
+    if sse and name == 'is_finite': rhs = 'Ok (VB (%s))' % ' && '.join('(finite_lane O %s)' % a for a in A)       # |x| < inf on the masked bits; FloatTricks.finite_lane_correct
+    elif sse and name == 'abs_diff_eq' and len(trees) == 3:
+        Bv = [l[2] for l in tree_leaves(trees[1])]; e = tree_leaves(trees[2])[0][2]
+        rhs = 'Ok (VB (%s))' % ' && '.join(cmp(k, 'FLe', '(abs_lane O %s)' % op2(k, 'FSub', a, b), e) for a, b in zip(A, Bv))   # FloatTricks.abs_lane_correct
+    elif name == 'is_nan': rhs = 'Ok (VB (%s))' % ' || '.join(prd(k, 'FIsNan', a) for a in A)
     elif name == 'is_finite': rhs = 'Ok (VB (%s))' % ' && '.join(prd(k, 'FIsFinite', a) for a in A)
     elif name == 'is_negative_bitmask': rhs = 'Ok (VI U32 (%s))' % ' + '.join('(if %s then %d else 0)' % (prd(k, 'FSignBit', a), 1 << i) for i, a in enumerate(A))
     elif name == 'eq' and len(trees) == 2:
